@@ -247,7 +247,7 @@ def _run(ctx, rng, big, events):
                 if rng.random() < 0.5:
                     c, info = c0, i0
             form = rng.choice(['explicit', 'explicit', 'explicit', 'inferred', 'class-required', 'noevent', 'named'])
-            if form == 'class-required' and req:
+            if (form == 'class-required' or (form == 'inferred' and rng.random() < 0.5)) and req:
                 # a class among the required specifications stands for its implementation specification
                 k = rng.choice(classes)
                 j = rng.randrange(len(req))
@@ -262,6 +262,8 @@ def _run(ctx, rng, big, events):
                 implementer(prov)(c)
                 c.__component_adapts__ = req
                 comps.registerAdapter(c, name=name, info=info)
+                if any(isinstance(x, type) for x in req):
+                    ctx.count('component_adapts_with_a_class')
             elif form == 'named' and name:
                 c.__component_name__ = name
                 comps.registerAdapter(c, req, prov, info=info)
